@@ -958,10 +958,12 @@ void UniCompiler::emit_3i(UniOpRRR op, const Gp& dst, const Operand_& src1_, con
       }
 
       case UniOpRRR::kSub: {
-        if (!dst_is_a) {
+        if (!dst_is_a && b.is_int32() && b.value() != int64_t(INT32_MIN)) {
           lea(dst, x86::ptr(a, int32_t(0u - b.value_as<uint32_t>())));
         }
         else {
+          if (!dst_is_a)
+            cc->mov(dst, a);
           cc->sub(dst, b);
         }
         return;
